@@ -173,7 +173,14 @@ class Module:
         if _VOCAB is None:
             _VOCAB = load_vocab()
         canonicalise(self.tree, eq_none=not rel.startswith("BPTK_Py/sddsl/"))
-        self.inlined_calls = inline_module(self.tree, _VOCAB) if _VOCAB else 0
+        self.inlined_calls = 0
+
+    def finish_view(self, global_classes, any_helpers: bool) -> None:
+        """Second phase (all modules parsed): look through helpers, also those inherited from a base class of another module."""
+        from .inline import canonicalise, inline_module
+        self.inlined_calls = inline_module(self.tree, _VOCAB, global_classes, any_helpers) if _VOCAB else 0
+        if self.inlined_calls:
+            canonicalise(self.tree, eq_none=not self.rel.startswith("BPTK_Py/sddsl/"))      # the inlined bodies once more (idempotent)
         # execution/source order of the *view* (inlined statements keep the line numbers of their helper, so lineno is for reporting only)
         k = 0
         stack = [self.tree]
@@ -182,6 +189,19 @@ class Module:
             n._seq = k
             k += 1
             stack.extend(reversed(list(ast.iter_child_nodes(n))))
+        # nested functions the view created (a generator helper moved into its only caller) become functions of their own
+        if self.inlined_calls:
+            for q, fi in list(self.functions.items()):
+                for n in walk_no_nested_body(fi.node):
+                    if isinstance(n, (ast.FunctionDef, ast.AsyncFunctionDef)) and (q + "." + n.name) not in self.functions:
+                        self._index_func(n, fi.cls, q + "." + n.name)
+        # helpers that were absorbed by all their callers are no longer functions of their own for the rules
+        for q in [q for q, f in self.functions.items() if getattr(f.node, "_absorbed", False)]:
+            fi = self.functions.pop(q)
+            if fi.cls and fi.cls in self.classes and fi.node.name in self.classes[fi.cls].methods:
+                self.classes[fi.cls].methods[fi.node.name] = [d for d in self.classes[fi.cls].methods[fi.node.name] if d is not fi]
+                if not self.classes[fi.cls].methods[fi.node.name]:
+                    del self.classes[fi.cls].methods[fi.node.name]
 
     def _index(self) -> None:
         for n in ast.walk(self.tree):
@@ -275,6 +295,10 @@ class Index:
         for m in self.modules.values():
             for c in m.classes.values():
                 self.class_by_name.setdefault(c.name, []).append(c)
+        global_classes = {name: cs[0].node for name, cs in self.class_by_name.items()}
+        any_helpers = _VOCAB is not None and any(f.node.name not in _VOCAB for m in self.modules.values() for f in m.functions.values())
+        for m in self.modules.values():
+            m.finish_view(global_classes, any_helpers)
 
     # -- lookups (fail closed) ---------------------------------------------
     def module(self, rel: str) -> Module:
